@@ -1,13 +1,14 @@
+\* one reader, three calls of every kind, Reset
 SPECIFICATION MCSpec
 CONSTANTS
   NK = 3
-  MaxW = 4
+  MaxW = 3
   Readers = {1}
-  MaxCalls = 2
+  MaxCalls = 3
   Ranges <- Ranges1
   VLens = {1}
   WithReset = TRUE
-  CallOps = {"find", "iter"}
+  CallOps = {"get", "find", "has", "iter"}
 VIEW MCView
 INVARIANTS TypeOK Accounting Sorted ImplAgrees ImplExplained CursorAgrees ForwardUp OnlyStored
 CHECK_DEADLOCK FALSE
